@@ -234,7 +234,9 @@ def _real_world(inp):
     cond = pv.Conditions(membrane_area=0.05, initial_feed_temperature=330.0, initial_feed_amount=3.0, initial_feed_composition=pv.Composition(0.3, "molar"), permeate_temperature=293.15)
     meas = Measurements.from_diffusion_curves_first(curves)
     P0 = (pv.Permeance(0.05), pv.Permeance(0.001))
-    args = {"membrane": mem, "mixture": mix, "curves": curves, "conditions": cond, "measurements": meas, "P0": P0}
+    # the composition list handed to the curve entry point is an argument like any other; it spans the closed interval (pure ends included)
+    comps = [pv.Composition(0.0, "weight"), pv.Composition(0.3, "molar"), pv.Composition(0.5, "weight"), pv.Composition(1.0, "weight")]
+    args = {"membrane": mem, "mixture": mix, "curves": curves, "conditions": cond, "measurements": meas, "P0": P0, "compositions": comps}
     fl = lambda f: [f.alpha] + list(f.a) + list(f.b)
     calls = {
         "flux_solver": lambda: pz.calculate_partial_fluxes(333.15, pv.Composition(0.3, "molar"), 5e-5, 293.15, None),
@@ -246,6 +248,7 @@ def _real_world(inp):
         "separation_factor": lambda: [pz.calculate_separation_factor(333.15, pv.Composition(0.3, "molar"), 293.15, None, 5e-5)],
         "permeance": lambda: [mem.get_permeance(341.0, mix.first_component).value, mem.get_permeance(341.0, mix.second_component).value],
         "ideal_curve": lambda: [tuple(f) for f in pz.ideal_diffusion_curve(333.15, [pv.Composition(0.3, "molar"), pv.Composition(0.5, "weight")], 293.15).partial_fluxes],
+        "ideal_curve_closed_interval": lambda: [tuple(f) for f in pz.ideal_diffusion_curve(333.15, comps, 293.15).partial_fluxes],
         "fit": lambda: fl(opt.fit(meas, n=1, m=1, include_zero=True, component_index=1)),
         "find_best_fit": lambda: fl(opt.find_best_fit(meas, include_zero=True, component_index=0, n=1, m=1)),
         "ideal_iso": lambda: pz.ideal_isothermal_process(2, 0.2, cond).feed_mass,
@@ -522,6 +525,13 @@ def thermo(job):
                     job.unreached(tag)
 
 
+def real_code(job):
+    """what the lifted worlds leave out by their domain (fractions strictly inside (0, 1)): every entry point once on real objects with the
+    real optimiser, the curve also over a composition list that includes the pure ends -- labelled concrete points"""
+    job.bound(real_code_entries="all entry points of the real world, each called twice")
+    job.refute_concretely("C20/real_code/arguments_unchanged_and_repeatable", "vf.props.C20:concrete", {"entry": "all"})
+
+
 def jobs(tier):
     js = [("thermo", "thermo", {})]
     modes = ("ptemp",) if tier == "quick" else proc.MODES
@@ -542,4 +552,5 @@ def jobs(tier):
         js.append(("history_%d" % i, "histories", {"mode": "ptemp", "pairs": pairs[i:i + 2]}))
     for i in range(0, len(solver_pairs), 2):
         js.append(("history_solver_%d" % i, "histories", {"mode": "ptemp", "pairs": solver_pairs[i:i + 2]}))
+    js.append(("real_code", "real_code", {}))
     return js
